@@ -154,6 +154,11 @@ class C03(Campaign):
             sc["ops"].insert(1, {"op": "activate", "inst": "A"})
             for g in sc["gv"].values():
                 g.append(g[-1])
+            if rnd.random() < 0.5:
+                # ... and once more (nothing is queued then): the machine stays usable
+                sc["ops"].insert(2, {"op": "activate", "inst": "A"})
+                for g in sc["gv"].values():
+                    g.append(g[-1])
         for c, m in sorted(prog["cbs"].items()):
             if m["group"] in ("before", "on") and rnd.random() < 0.6:
                 full = f"{prog['name']}/{c}"
